@@ -281,7 +281,7 @@ def rand_dir(rng, tier, depth, maxdepth, budget, allow_drive=False):
     """budget: mutable [remaining nodes]"""
     d = {"k": "d", "m": rand_dmode(rng), "ns": rand_ns(rng), "c": []}
     if depth >= maxdepth:
-        nch = 0 if rng.random() < 0.5 else rng.randrange(0, 3)
+        nch = 0
     else:
         nch = rng.choice([0, 1, 2, 2, 3, 3, 4, 5])
     used = set()
@@ -291,7 +291,7 @@ def rand_dir(rng, tier, depth, maxdepth, budget, allow_drive=False):
         budget[0] -= 1
         n = rand_name(rng, used, allow_drive)
         used.add(n)
-        if depth < maxdepth and rng.random() < 0.42:
+        if depth + 1 <= maxdepth and rng.random() < 0.42:
             c = rand_dir(rng, tier, depth + 1, maxdepth, budget, allow_drive)
         else:
             c = rand_file(rng, tier)
@@ -341,7 +341,7 @@ def add_links(rng, spec, nlinks, unnormalised=False):
 
 
 def gen_tree(rng, tier, maxdepth, cls="clean"):
-    budget = [rng.choice([3, 6, 10, 16, 25]) if tier == "quick" else rng.choice([3, 8, 16, 30, 60])]
+    budget = [rng.choice([3, 6, 10, 16, 25]) if tier == "quick" else rng.choice([4, 10, 20, 40, 80])]
     spec = rand_dir(rng, tier, 0, maxdepth, budget, allow_drive=(cls == "drive"))
     if cls == "drive" and not any(n[1:2] == ":" for n, _ in spec["c"]):
         spec["c"].append([rng.choice(DRIVE), rand_file(rng, tier) if rng.random() < 0.6 else
